@@ -69,7 +69,7 @@ def check_aggregate(agg, h, kind, nkeys, form, keys, vals, menu_name):
     ok = True
     for (fn, src, want), got in zip(outs, cols[nkeys:]):
         if len(got) != len(want) or not all(gs.value_close(a, b) for a, b in zip(got, want)):
-            agg.violation(V(f"aggregate.{form}.{fn}", f"wrong-{fn}-values" + ("-" + menu_name if menu_name in ("twice", "two-unnamed", "sum-mean-unnamed", "two-cols") else ""),
+            agg.violation(V(f"aggregate.{form}.{fn}", f"wrong-{fn}-values" + ("-" + menu_name if menu_name in ("twice", "two-unnamed", "sum-mean-unnamed", "two-cols", "two-same-name", "lshift-built") else ""),
                             case, {"fn": fn, "source": src, "values": want}, got, py))
             ok = False
     if "apply" in menu:
@@ -106,7 +106,7 @@ def run_unit(unit):
 
 
 # ---- histories: aggregate, write a key or value cell in place (3 write paths), aggregate again
-def hist_iter(kind, maxn=2):
+def hist_iter(kind, maxn=2, only_path=None):
     for n in range(1, maxn + 1):
         for keys in gs.key_lists(kind, 1, n):
             for vals in itertools.product(gs.VAL_ALPHA, repeat=n):
@@ -116,12 +116,19 @@ def hist_iter(kind, maxn=2):
                         for new in alpha:
                             if new == old or new is None:
                                 continue
-                            for path in ("cell", "view", "replace"):
-                                yield list(keys), list(vals), col, idx, new, path
+                            for path in ("cell", "view", "replace", "cell2", "view2"):
+                                if only_path is None or path == only_path:
+                                    yield list(keys), list(vals), col, idx, new, path
 
 
 def mutate(t, col, idx, new, path):
     from serif import Vector
+    if path in ("cell2", "view2"):
+        # two in-place writes in a row (an intermediate value first): storage is swapped twice
+        inter = "tmp" if isinstance(new, str) else (new + 7 if isinstance(new, (int, float)) and not isinstance(new, bool) else new)
+        mutate(t, col, idx, inter, path[:-1])
+        mutate(t, col, idx, new, path[:-1])
+        return
     if path == "cell":
         t[idx, col] = new
     elif path == "view":
@@ -184,10 +191,15 @@ def hist_one(agg, kind, form, method, keys, vals, col, idx, new, path):
 
 
 def run_hist(unit):
-    _, kind, form, method, maxn = unit
+    _, kind, form, method, maxn = unit[:5]
+    policy = unit[5] if len(unit) > 5 else "fresh"
+    only_path = unit[6] if len(unit) > 6 else None
     agg = Agg()
-    for keys, vals, col, idx, new, path in hist_iter(kind, maxn):
+    if policy != "fresh":
+        core.reset_globals(policy)      # CPython-like identity recycling for this pass
+    for keys, vals, col, idx, new, path in hist_iter(kind, maxn, only_path):
         hist_one(agg, kind, form, method, keys, vals, col, idx, new, path)
+    agg.notes["hist_allocator_policies"] = [policy]
     agg.sample({"history": [method, "in-place write to a key/value cell via cell|view|replace", method + " again"], "kind": kind})
     return agg
 
@@ -240,8 +252,9 @@ def check(ctx):
     from mc import hashseeds
     units = gs.plan_units(ctx.thorough)
     units += [("hist", k, f, METHOD, ctx.pick(2, 3)) for k in ("str", "intc") for f in ("name", "column")]
+    units += [("hist", "str", f, METHOD, 2, "recycle") for f in (("name", "column") if ctx.thorough else ("name",))]
     if not ctx.thorough:
-        units.append(("hist", "str", "name", METHOD, 3))
+        units += [("hist", "str", "name", METHOD, 3, "fresh", p) for p in ("cell", "view", "replace", "cell2", "view2")]
     units += [("reduce", a, ctx.pick(4, 5)) for a in ("int", "float", "neg")]
     agg = hashseeds.run(ctx, "props.c12", units)
     agg.notes["bound"] = "rows<=4 (1 key) / <=3 (2 keys) quick; <=5 / <=4 / <=2 (3 keys) thorough"
